@@ -190,7 +190,51 @@ def validation_after(ctx: Ctx, fn: FuncInfo, sender_call: ast.Call, id_vn, rep: 
     rep.check(ok, rule, site, text, "a path reaches the return without validation" if not ok else f"validated at line(s) {[n.lineno for n in good_nodes]}", key=f"{fn.key}|validation-bypass", witness=wit)
 
 
+def check_expected_id_is_frame_local(ctx: Ctx, rep: Report, rule: str = "C07-R9") -> None:
+    """
+    The id a response is matched against belongs to the call that sent the request: a parameter, a local or a field of
+    a local (the request PDU).  An id parked on ``self`` (or in a module global) is overwritten by the next request
+    that starts while this one awaits its response - the response is then matched against another request's id.
+    """
+    vkeys = set(validators(ctx))
+    for fn in ctx.u.functions.values():
+        if fn.module.external or not fn.module.name.startswith("puresnmp"):
+            continue
+        for call in own_nodes(fn.node):
+            if not (isinstance(call, ast.Call) and call.args and any(isinstance(c, FuncInfo) and c.key in vkeys for c in ctx.r.callees(fn, call))):
+                continue
+            defs = ctx.defs(fn)
+            exp = defs.expand(call.args[0])
+            root = exp
+            while isinstance(root, (ast.Attribute, ast.Subscript)):
+                root = root.value
+            if isinstance(root, ast.Call):
+                ok: Optional[bool] = True  # a value computed here (a fresh id / a conversion of a local) - R1 compares it
+                for n in ast.walk(root):
+                    if isinstance(n, ast.Attribute) and isinstance(n.value, ast.Name) and n.value.id in ("self", "cls") and isinstance(exp, ast.Attribute):
+                        ok = None
+            elif isinstance(root, ast.Name):
+                if root.id in ("self", "cls") and isinstance(exp, (ast.Attribute, ast.Subscript)):
+                    ok = False
+                elif root.id in fn.params or defs.all_values(root.id) or root.id in defs.unpack or root.id in defs.other_defs:
+                    ok = True
+                else:
+                    ok = False  # a module global
+            else:
+                ok = isinstance(root, ast.Constant) or None
+            rep.check(
+                ok,
+                rule,
+                fn.site(call),
+                "the id a response is matched against is local to the call that sent the request (parameter, local, field of the request), not state another request can overwrite while this one waits",
+                f"expected id = {norm(exp)}",
+                key=f"{fn.key}|expected-id-shared-state",
+            )
+
+
 def run(ctx: Ctx, rep: Report) -> None:
+    rep.rule("C07-R9", "the expected id is frame-local: never parked in instance or module state across the await", floor=1)
+    check_expected_id_is_frame_local(ctx, rep)
     rep.rule("C07-R1", "the id placed in the request PDU and the id validated are one value (single clock read)", floor=2)
     rep.rule("C07-R2", "validation of the response id is unavoidable in the sender-calling method; the validator is exact", floor=2)
     rep.rule("C07-R3", "every network sender call is a pass-through closure or is followed by id validation", floor=2)
@@ -210,7 +254,8 @@ def run(ctx: Ctx, rep: Report) -> None:
     sig = ctx.send_signature(send)
     assert sig is not None
     pdu_param, id_param = sig
-    callers = [(fn, call) for fn, call in ctx.callers_of(send, client.methods.values())]
+    # operations are read with their small helpers spliced in (a request built by `pdu, rid = self._new_request(..)`)
+    callers = [(fn, call) for fn, call in ctx.callers_of(send, [ctx.inlined(m, keep=[send.key] + [m2.key for m2 in client.methods.values() if not m2.name.startswith("_")]) for m in client.methods.values()])]
     for fn, call in callers:
         bound = bind_call_args(call, send.params)
         site = fn.site(call)
@@ -416,7 +461,7 @@ def check_community_model(ctx: Ctx, rep: Report, cls: ClassInfo, want_version: i
                 which = "version"
                 other = right if idx_l == 0 else left
                 try:
-                    compared.append(ctx.r.const(proc.module, other))
+                    compared.append(ctx.r.const(proc.module, other, cls))
                 except Exception:  # pylint: disable=broad-except
                     compared.append(None)
             elif (idx_l == 1) != (idx_r == 1):
